@@ -4,7 +4,10 @@ selector.nest(a, b) and the nesting of `a { b { .. } }` both reach CssSelectorSe
 parent set being the back-reference); selector.append(a, b) and the resolution of `a { &b {..} }`
 both reach CompoundSelector::append.  Neither side has a second implementation: the only
 callers of those two functions lie on these two paths.  The unify / extend / replace laws are
-relations over runtime selector structures and are not claimed.
+relations over runtime selector structures and are not claimed as a whole; two structural
+necessary conditions are: selector.extend only adds (extend_only_adds), and wherever a unify
+function picks one of two operands because `P.is_superselector(Q)` holds, it picks the covered
+one, Q (the result must be covered by BOTH inputs; P alone is not covered by Q).
 """
 from collections import deque
 
@@ -71,8 +74,42 @@ def run(ctx, F):
         else:
             ctx.fail("F8-single-implementation", key, f"unexpected callers {odd} (all: {callers})")
     extend_only_adds(ctx, F.ast)
+    unify_keeps_the_covered(ctx, F.ast)
     ctx.explanation = ("Resolved call-graph reachability (direct calls only, bounded depth) from the selector.nest / selector.append built-ins and from handle_item to the two implementation anchors; caller inventory of the anchors; "
                        "argument roles at the CssSelectorSet::nest call sites.")
+
+
+def unify_keeps_the_covered(ctx, tree):
+    """`if P.is_superselector(Q) { ..Q.. }`: in the unify functions a pick-one decision keeps the narrower operand."""
+    from lib import ast as A
+    n = 0
+    for f in tree.fn_list:
+        if not (f["path"].startswith("css::selectors::") and "unify" in f["sig"]["name"]):
+            continue
+        seen = {}
+        for node in A.walk(f["body"]):
+            if node.get("e") != "if":
+                continue
+            c = A.strip(node["cond"])
+            if not (c.get("e") == "mcall" and c["m"] == "is_superselector" and len(c["args"]) == 1):
+                continue
+            P, Q = A.strip(c["recv"]), A.strip(c["args"][0])
+            if P.get("e") != "path" or Q.get("e") != "path":
+                continue
+            names = [x["p"] for x in A.walk(node["then"]) if x.get("e") == "path"]
+            uses_p, uses_q = P["p"] in names, Q["p"] in names
+            if uses_p == uses_q:
+                continue          # not a pick-one decision (both operands combined, or neither)
+            n += 1
+            base = f"{f['path']}|if {P['p']} covers {Q['p']}"
+            seen[base] = seen.get(base, 0) + 1
+            key = base if seen[base] == 1 else f"{base}#{seen[base] - 1}"
+            if uses_q:
+                ctx.ok("F5-unify-keeps-covered", key, f"keeps {Q['p']}")
+            else:
+                ctx.fail("F5-unify-keeps-covered", key, f"{f['path']}: when `{P['p']}` is a superselector of `{Q['p']}` the function keeps `{P['p']}` (the wider one): the result of selector.unify is then not covered by `{Q['p']}`, "
+                         "so one of the inputs is no longer a superselector of the result")
+    ctx.floor("pick-one decisions by is_superselector in unify functions", n, 5)
 
 
 REMOVALS = ("retain", "retain_mut", "remove", "swap_remove", "drain", "truncate", "dedup", "dedup_by", "dedup_by_key", "pop", "clear", "split_off")
